@@ -6,6 +6,7 @@ CONSTANTS
   QueueMax = 2
   MaxTasks = 3
   MaxOps = 0
+  SyncTask = FALSE
   Dev = {}
 SPECIFICATION LiveSpec
 VIEW view
